@@ -151,7 +151,7 @@ def np_unit_intervals(h):
     h.ensures("C10.fit_rows_are_reporting_units", z3.Implies(facts, z3.Implies(Xa.present(), t.R)))
     # calibration rows: reporting, disjoint from the training rows, together all reporting rows
     ca = conf.axis
-    h.ensures("C04.split_disjoint_exhaustive", z3.Implies(facts, z3.And(z3.Not(z3.And(Xa.present(), ca.present())), z3.Or(Xa.present(), ca.present()) == t.R)))
+    h.ensures("C04.split_disjoint_exhaustive", z3.Implies(facts, z3.And(z3.Not(z3.And(Xa.present(), ca.present())), z3.Or(Xa.present(), ca.present()) == t.R)), replay=lambda ev: {"target": "verif_replays:calibration_split_replay", "args": [], "check": "result['exc'] is None and result['ok']"})
     pc = [c for c in h.interp.call_log if c[0] == "popcorr"]
     h.ensures("one_population_correction", len(pc) == 1)
     sc = pc[0][1]["scores"]
